@@ -244,6 +244,7 @@ var dirMixes = [][]core.Cmd{
 //     but evaluates to the same map of the caller ($m ?: $m, true ? $m : $m),
 //     so that the explicit params of the call sit next to a caller-owned map;
 //   - a print gets one of dirMixes.
+//
 // The language semantics of the program is unchanged for the first kind and
 // defined by SoyDirectives for the second.
 func vary(r *rand.Rand, cmds []core.Cmd) {
